@@ -1,6 +1,165 @@
-/- C17 property theorems (being built) -/
-import ThriftVerif.Lib.Dump
+/-
+  C17 — dumping an AST to IDL text and parsing it back gives the same IDL (DESIGN.md §5.17).
+  Property theorems only; the model is `Lib/Dump.lean`, helper lemmas are in `Lib/Dump*Lemmas.lean`.
+  All statements are about the constants regenerated from dump.go (`Generated.C17.cfg`).
+-/
+import ThriftVerif.Lib.DumpLemmas
+import ThriftVerif.Lib.DumpNumLemmas
+import ThriftVerif.Lib.DumpReadLemmas
 import ThriftVerif.Generated.C17
+
 namespace Props.C17
+open Dump
+
+abbrev cfg := Generated.C17.cfg
+
+/-- the regenerated constants of dump.go are the ones the lemmas were proved for -/
 theorem generated_cfg_is_std : Generated.C17.cfg = Dump.stdCfg := by decide
+
+/-- `&` escaping is undone by the final unescape: for a buffer that is the concatenation of `writeString`
+    arguments (every `&` escaped, once), `htmlUnescape` returns the concatenation of the arguments. -/
+theorem amp_escape_inverse (l : List Bytes) : htmlUnescape ((l.map (ws cfg)).flatten) = l.flatten := by
+  rw [show cfg = stdCfg from generated_cfg_is_std]; exact unescape_ws_concat l
+
+/-- …but a text escaped twice (typeName writes type annotations through a nested builder, the result goes
+    through writeString again) is not restored: `&` comes back as `&amp;`. -/
+theorem amp_escape_inverse_twice_not : htmlUnescape (ws cfg (ws cfg [38])) = [38, 97, 109, 112, 59] := by decide
+
+/-- the final text of a DumpSafe literal: `"`, the value with every `"` written `\"`, `"` -/
+theorem dump_literal_text (v : Bytes) (h : DumpSafe v = true) : dumpLiteral cfg v = 34 :: (qEsc v ++ [34]) := by
+  rw [show cfg = stdCfg from generated_cfg_is_std]; exact finish_lit v h
+
+/-
+  Full statement (FALSE on the model and on the code, see the witnesses below):
+    ∀ v rest, readLiteral (dumpLiteral cfg v ++ rest) = some (v, rest)
+-/
+/-- literal_roundtrip (partial: DumpSafe): the dumped text of `v` lexes as a `Literal` whatever follows it,
+    and `pegText` returns `v`. -/
+theorem literal_roundtrip (v rest : Bytes) (h : DumpSafe v = true) :
+    readLiteral (dumpLiteral cfg v ++ rest) = some (v, rest) := by
+  rw [dump_literal_text v h]; exact readLiteral_final v rest (DumpSafe.lexSafe h)
+
+example : DumpSafe [97, 34, 98, 39, 38, 60, 35, 92, 92, 110, 38, 97, 109, 112, 59, 38, 35, 51, 52, 59] = true := by decide
+
+/-- one decided counterexample per shape excluded by `DumpSafe`:
+    `a\"b` is re-read as `a"b`; `##34;` as `"`; `#OUTQUOTES` ends the literal early; a trailing backslash
+    leaves the literal unterminated. -/
+theorem literal_roundtrip_iff_safe_witnesses :
+    (DumpSafe [97, 92, 34, 98] = false ∧ readLiteral (dumpLiteral cfg [97, 92, 34, 98]) = some ([97, 34, 98], []))
+    ∧ (DumpSafe [35, 35, 51, 52, 59] = false ∧ readLiteral (dumpLiteral cfg [35, 35, 51, 52, 59]) = some ([34], []))
+    ∧ (DumpSafe [35, 79, 85, 84, 81, 85, 79, 84, 69, 83] = false
+        ∧ readLiteral (dumpLiteral cfg [35, 79, 85, 84, 81, 85, 79, 84, 69, 83]) = some ([], [34]))
+    ∧ (DumpSafe [97, 92] = false ∧ readLiteral (dumpLiteral cfg [97, 92]) = none) := by
+  have e1 : dumpLiteral cfg [97, 92, 34, 98] = [34, 97, 92, 34, 98, 34] := by decide
+  have e2 : dumpLiteral cfg [35, 35, 51, 52, 59] = [34, 92, 34, 34] := by decide
+  have e3 : dumpLiteral cfg [35, 79, 85, 84, 81, 85, 79, 84, 69, 83] = [34, 34, 34] := by decide
+  have e4 : dumpLiteral cfg [97, 92] = [34, 97, 92, 34] := by decide
+  rw [e1, e2, e3, e4]
+  refine ⟨⟨by decide, ?_⟩, ⟨by decide, ?_⟩, ⟨by decide, ?_⟩, ⟨by decide, ?_⟩⟩ <;>
+    simp [readLiteral, lexBody, pegText, pegLoop]
+
+/-- annotation_roundtrip: the `k = v` pairs written by printAnnotation (one per value, keys repeated),
+    regrouped by `Annotations.Append` in reading order, give back the list — for every list with
+    pairwise distinct keys and non-empty value lists (what the parser builds). -/
+theorem annotation_roundtrip (l : List Ann) (h : WFAnn l) : annRegroup (annFlatten l) = l :=
+  regroup_flatten l h
+
+example : WFAnn [⟨[97], [[49], [51]]⟩, ⟨[98], [[50]]⟩] := by
+  refine ⟨by decide, ?_⟩
+  intro a ha
+  simp at ha
+  rcases ha with rfl | rfl <;> simp
+
+/-- numeric_roundtrip (integers): `%d` of any int64, followed by anything that cannot continue a number,
+    is read by DoubleConstant / IntConstant + ParseInt(·, 0, 64) as the same integer. -/
+theorem numeric_roundtrip_int (pf : Bytes → Nat) (i : Int) (hlo : -9223372036854775808 ≤ i) (hhi : i < 9223372036854775808)
+    (rest : Bytes) (hs : Sep rest) : readNumber pf (fmtInt i ++ rest) = (.int i, rest) :=
+  readNumber_fmtInt pf i hlo hhi rest hs
+
+example : Sep [44, 32] ∧ Sep [] ∧ Sep [93] ∧ Sep [10] := by simp [Dump.Sep, isDigit]
+
+/-
+  numeric_roundtrip (doubles).  `ff`/`pf` stand for strconv.FormatFloat(·,'f',-1,64) / ParseFloat(·,64) on
+  IEEE bit patterns.  Assumed of them (shortest round trip): the text has the shape sign? digits ('.' digits)?
+  with canonical integer part, and `pf (ff b) = b`.  Then:
+  * with a fractional part the text is read as the double `b` again;
+  * without one it is read by IntConstant + ParseInt as the integer the digits denote — an error when that
+    integer does not fit int64 (FALSE round trip, witness below: 2^63 is dumped as 9223372036854776000).
+-/
+theorem numeric_roundtrip_double (ff : Nat → Bytes) (pf : Bytes → Nat) (b : Nat) (sh : FShape (ff b)) (hrt : pf (ff b) = b)
+    (rest : Bytes) :
+    (sh.fp ≠ [] → SepD rest → readNumber pf (ff b ++ rest) = (.dbl b, rest))
+    ∧ (sh.fp = [] → Sep rest → readNumber pf (ff b ++ rest) =
+        ((if sh.neg then (if decVal sh.ip ≤ 9223372036854775808 then Num.int (-(decVal sh.ip : Int)) else .err)
+          else (if decVal sh.ip < 9223372036854775808 then Num.int (decVal sh.ip) else .err)), rest)) := by
+  refine ⟨fun hne hs => ?_, fun he hs => ?_⟩
+  · rw [readNumber_fshape_frac pf _ sh hne rest hs, hrt]
+  · rw [readNumber_fshape_int pf _ sh he rest hs, parseInt0_canon _ _ sh.ipCanon]
+
+/-- the integral double 2^63, written `9223372036854776000` by FormatFloat, is rejected on re-reading -/
+example : (readNumber (fun _ => 0) [57, 50, 50, 51, 51, 55, 50, 48, 51, 54, 56, 53, 52, 55, 55, 54, 48, 48, 48]).1 = Num.err := by
+  decide
+
+/-- annotation_roundtrip on the text: the dumped annotation list — `(k = "v", …)`, one pair per value — is
+    read by the `Annotations` rule + `parseAnnotations` as the same list (keys grouped again, order kept),
+    for lists as the parser builds them (distinct keys, no empty value list) whose values are DumpSafe. -/
+theorem annotation_text_roundtrip (l : List Ann) (hne : l ≠ []) (hwf : WFAnn l) (hok : AnnsOK l) (rest : Bytes) :
+    readAnnotations (dumpAnnotations cfg l ++ rest) = some (l, skipIndent rest) := by
+  rw [show cfg = stdCfg from generated_cfg_is_std, dumpAnnotations_final l hok.safe hwf.2]
+  exact readAnnotations_final l hne hwf hok.pairs rest
+
+/-- constvalue_roundtrip: every constant value (all six kinds, nested) whose literals are DumpSafe, whose
+    integers fit int64, whose identifiers are identifiers and whose doubles satisfy the FormatFloat/ParseFloat
+    assumptions (`GoodCV`, `SafeCV`) is read back from its dumped text as `reread` of itself — the same value,
+    except that a double written without fractional part comes back as the integer its digits denote. -/
+theorem constvalue_roundtrip (ff : Nat → Bytes) (pf : Bytes → Nat) (cv : CV) (hg : GoodCV ff pf cv) (hs : SafeCV ff cv)
+    (rest : Bytes) (ht : Term rest) (f : Nat) (hf : cvSize cv ≤ f) :
+    readCV pf f (dumpCV cfg ff cv ++ rest) = some (reread ff cv, skipIndent rest) := by
+  rw [show cfg = stdCfg from generated_cfg_is_std, dumpCV_final ff cv hs]
+  exact readCV_final ff pf cv hg rest ht f hf
+
+/-- the hypotheses are satisfiable: `{"a\"b": [1, -2], x.Y: "&amp;"}`-like value -/
+example : GoodCV (fun _ => []) (fun _ => 0) (.map [(.lit [97, 34, 98], .list [.int 1, .int (-2)]), (.ident [120, 46, 89], .lit [38, 97, 109, 112, 59])])
+    ∧ SafeCV (fun _ => []) (.map [(.lit [97, 34, 98], .list [.int 1, .int (-2)]), (.ident [120, 46, 89], .lit [38, 97, 109, 112, 59])]) := by
+  refine ⟨?_, ?_⟩
+  · simp only [GoodCV, GoodPairs, GoodItems, and_true]
+    refine ⟨⟨by decide, by decide⟩, ⟨⟨by omega, by omega⟩, by omega, by omega⟩, ⟨120, [46, 89], rfl, by decide, by decide⟩, by decide, by decide⟩
+  · simp only [SafeCV, SafePairs, SafeItems, and_true]
+    refine ⟨by decide, by decide, by decide⟩
+
+/-
+  dump_parse (FULL statement, not proved: the reader of whole files is C03's model, not built here):
+    ∀ f accepted, walk (peg (dump f)) = ok f' ∧ f' ≃ f on every definition, name, type expression, id,
+    requiredness, default, enum value, annotation list, include, namespace, cpp_include.
+  It is FALSE on the unchanged tree (see docs/C17.md: argument defaults/annotations dropped, type annotations
+  escaped twice, cpp_type dropped, throws separator, 2^63 doubles, placeholder text, `\"`).
+-/
+/-- dump_parse (partial): the tail of a constant or field definition as the dumper writes it — the value
+    followed by the annotation list, passed through the post-passes of DumpIDL *together* — is read back as
+    that value (`reread`) followed by that annotation list.
+    Covered by theorem: constant values of all six kinds (nested), annotation lists, literals, numbers and their
+    concatenation.  Covered by correspondence + oracle only: includes, namespaces, cpp_include, typedef, const,
+    enum, struct/union/exception and service/function layouts, type expressions, comments. -/
+theorem dump_parse_partial (ff : Nat → Bytes) (pf : Bytes → Nat) (cv : CV) (l : List Ann)
+    (hg : GoodCV ff pf cv) (hs : SafeCV ff cv) (hne : l ≠ []) (hwf : WFAnn l) (hok : AnnsOK l)
+    (rest : Bytes) (f : Nat) (hf : cvSize cv ≤ f) :
+    ∃ r1, readCV pf f (finish cfg (printCV cfg ff cv ++ printAnnotation cfg l) ++ rest) = some (reread ff cv, r1)
+      ∧ readAnnotations r1 = some (l, skipIndent rest) := by
+  rw [show cfg = stdCfg from generated_cfg_is_std, finish_cv_anns ff cv l hs hok.safe hwf.2]
+  refine ⟨finalAnn l ++ rest, ?_, readAnnotations_final l hne hwf hok.pairs rest⟩
+  have ht : Term (finalAnn l ++ rest) := by
+    unfold finalAnn
+    cases l with
+    | nil => exact absurd rfl hne
+    | cons a r => simp [Term]
+  rw [List.append_assoc, readCV_final ff pf cv hg _ ht f hf, skipIndent_finalAnn l hne]
+
+/-- dump_accepted (partial): the dumped text of a good value is accepted by the reader model (no lexing
+    failure, no ParseInt error).  Acceptance of whole files by the parser and by the semantic checker is
+    judged by the oracle only.  Non-acceptance witnesses: `literal_roundtrip_iff_safe_witnesses` (trailing
+    backslash) and the 2^63 example above. -/
+theorem dump_accepted_partial (ff : Nat → Bytes) (pf : Bytes → Nat) (cv : CV) (hg : GoodCV ff pf cv) (hs : SafeCV ff cv)
+    (rest : Bytes) (ht : Term rest) : (readCV pf (cvSize cv) (dumpCV cfg ff cv ++ rest)).isSome = true := by
+  rw [constvalue_roundtrip ff pf cv hg hs rest ht _ (Nat.le_refl _)]; rfl
+
 end Props.C17
